@@ -216,6 +216,12 @@ func genFuzzPlan(tp *simrt.Tape, seed uint64, tier string) any {
 	return p
 }
 
+// entity-tag lists: well-formed, weak, truncated at every point of the
+// grammar, empty elements, stray separators
+var etagFuzz = []string{
+	`"1-2"`, `*`, `W/"x"`, `"`, `,,,`, ``, `W/`, ` W/`, `W`, `W/"`, `"x", W/`, `"x",`, `"x" "y"`, `W/"x", W/`, `w/"x"`, `"x", *`, `*, "x"`, `"unterminated`, "\"x\"\t,\tW/", `W/W/"x"`,
+}
+
 func init() {
 	Register("C12", &Scenario{
 		Name:   "signalling-fuzz",
@@ -390,10 +396,10 @@ func genHTTPFuzzPlan(tp *simrt.Tape, seed uint64, tier string) any {
 			r.Body = "x"
 		}
 		if tp.Chance(1, 4) {
-			r.Hdr["If-Match"] = []string{`"1-2"`, `*`, `W/"x"`, `"`, `,,,`, ``}[tp.Draw(6)]
+			r.Hdr["If-Match"] = etagFuzz[tp.Draw(len(etagFuzz))]
 		}
 		if tp.Chance(1, 4) {
-			r.Hdr["If-None-Match"] = []string{`"1-2"`, `*`, `W/"x"`, `"`, `,,,`}[tp.Draw(5)]
+			r.Hdr["If-None-Match"] = etagFuzz[tp.Draw(len(etagFuzz))]
 		}
 		if tp.Chance(1, 6) {
 			r.Hdr["Origin"] = []string{"https://evil.example", "null", "://"}[tp.Draw(3)]
